@@ -195,6 +195,14 @@ def scenario_projects() -> List[Dict[str, Any]]:
         add("root-named-%s" % nm, [U(nm, cls_src)], [], oracle_only=True)
     add("roots-named-classIndex-and-other", [U("classIndex", cls_src), U("other", "'''o'''\nfrom classIndex import C\nclass D(C):\n    '''d'''\n")],
         [], oracle_only=True)
+    # --html-subject: only the named objects are written (no summary pages: C11 does not judge these partial outputs);
+    # the traversal does not start at the roots, so nothing above the subject is looked at on the way down
+    hs = [U("hs", "'''pkg'''\n", True),
+          U("hs._impl", "'''impl'''\nclass Engine:\n    '''e'''\n    def start(self):\n        '''s'''\n    class Part:\n        '''p'''\n"),
+          U("hs.api", "'''api'''\nclass Client:\n    '''c'''\n    def call(self):\n        '''call'''\n    def _secret(self):\n        '''s'''\n")]
+    add("html-subject-inside-hidden-module", hs, ["HIDDEN:hs._impl"], opts={"subject": ["hs._impl.Engine"]}, oracle_only=True)
+    add("html-subject-hidden-module", hs, ["HIDDEN:hs._impl"], opts={"subject": ["hs._impl"]}, oracle_only=True)
+    add("html-subject-visible-class", hs, ["HIDDEN:hs.api.Client._secret"], opts={"subject": ["hs.api.Client", "hs._impl"]}, oracle_only=True)
     # the only root is hidden: nothing is documented, the summary pages are still written (and link to index.html)
     add("hidden-single-root", [U("solo", "'''s'''\nclass A:\n    '''a'''\n", True), U("solo.m", "x = 1\n")], ["HIDDEN:solo"])
     # a module named __main__ is PRIVATE by default; since c8d85b0 a --privacy rule overrides that default like any other:
@@ -574,6 +582,13 @@ def make_cases(rng, n_random: int, rule_lists: int = 1, scenarios: bool = True) 
             cli, cfg = split_config(rng, random_privacy(rng, units))
             cases.append({"name": "gen%d.%d" % (i, j), "units": units, "privacy": cli, "cfg_privacy": cfg,
                           "opts": random_options(rng)})
+            if rng.random() < 0.04:
+                # a partial run: --html-subject for a module or a top-level class (often inside something the rules hide)
+                subj = [u.qname for u in units]
+                for u in units:
+                    subj += [u.qname + "." + c for c in re.findall(r"^class ([A-Za-z_][A-Za-z_0-9]*)", u.source, flags=re.M)]
+                cases[-1]["opts"] = dict(cases[-1]["opts"], subject=[rng.choice(subj)])
+                cases[-1]["oracle_only"] = True
     return cases
 
 
@@ -620,6 +635,8 @@ def driver_args(case: Dict[str, Any], out: str, tops: Sequence[str]) -> List[str
         args.append("--docformat=" + case["docformat"])
     for r in case["privacy"]:
         args.append("--privacy=" + r)
+    for sname in o.get("subject", ()):
+        args.append("--html-subject=" + sname)
     return args + list(tops)
 
 
@@ -997,14 +1014,22 @@ def crawl_page(fn: str, text: str) -> Dict[str, Any]:
     page = canon_file(fn)
     refs: List[Tuple[str, str]] = []          # (attr, value) of every href/src
     anchors: List[str] = []                   # id / a[name] values
-    rstrefs: Dict[str, List[str]] = {}        # href of a docutils reference -> its classes
+    rstrefs: Dict[str, List[str]] = {}        # href of a docutils reference -> its classes + where it sits (ctx:...)
+    stem0 = fn[:-5] if fn.endswith(".html") else fn
+    whole_page_summary = stem0 in SUMMARY_PAGES or (fn == "index.html" and soup.find(id="main") is None)
     for el in soup.find_all(True):
         for attr in ("href", "src"):
             v = el.get(attr)
             if v is not None:
                 refs.append((attr, v))
                 if attr == "href" and v.startswith("#rst-"):
-                    rstrefs.setdefault(v, []).extend(_classes(el))
+                    if el.find_parent(class_="sidebar") is not None:
+                        where = "ctx:sidebar"
+                    elif whole_page_summary or el.find_parent(id="splitTables") is not None:
+                        where = "ctx:summary"           # a summary copied into an index page or a table of members
+                    else:
+                        where = "ctx:body"
+                    rstrefs.setdefault(v, []).extend(list(_classes(el)) + [where])
         if el.get("id") is not None:
             anchors.append(el.get("id"))
         if el.name == "a" and el.get("name") is not None:
